@@ -560,7 +560,13 @@ func (ctx *Context) evaluate() {
 				return
 			}
 			stackPush(dict.V())
-		case typePushComputed, typePushFunction:
+		case typePushComputed:
+			// 每次执行定义都得到一个独立的计算值: 之后对它设置的属性(&cv.x = 1)不能写进字节码里的常量，
+			// 否则同一段代码再次执行(RunAfterParsed、循环、函数体)时会带着上一次留下的属性
+			val := code.Value.(*VMValue)
+			cd := val.Value.(*ComputedData)
+			stackPush(&VMValue{TypeId: val.TypeId, Value: &ComputedData{Expr: cd.Expr, code: cd.code, codeIndex: cd.codeIndex}})
+		case typePushFunction:
 			val := code.Value.(*VMValue)
 			stackPush(val)
 		case typePushNull:
